@@ -10,6 +10,7 @@ import (
 	"go/types"
 	"math/big"
 	"os"
+	"runtime"
 	"runtime/debug"
 	"sort"
 	"strings"
@@ -32,6 +33,7 @@ type Options struct {
 	SolverLogDir string
 	Fallback          string // second solver asked when the first says unknown
 	FallbackTimeoutMs int
+	Seed         int
 	SampleModels int // keep models of this many violation-free paths (translator validation)
 	MapOrder     int // >0: iteration order of maps with at most this many entries is symbolic
 }
@@ -100,6 +102,8 @@ type Explorer struct {
 	started int
 	res     *Result
 	stop    bool
+	abort   bool // set by the watchdog: running paths end at their next instruction
+	rng     uint64
 }
 
 type undoRec struct {
@@ -418,7 +422,7 @@ func (pr *Program) Explore(entry *ssa.Function, opts Options) *Result {
 		opts.MaxPaths = 20000
 	}
 	if opts.MaxSteps <= 0 {
-		opts.MaxSteps = 5_000_000
+		opts.MaxSteps = 400_000
 	}
 	if opts.TimeoutMs <= 0 {
 		opts.TimeoutMs = 5000
@@ -432,11 +436,37 @@ func (pr *Program) Explore(entry *ssa.Function, opts Options) *Result {
 			opts.Fallback = "z3-new"
 		}
 	}
-	ex := &Explorer{prog: pr, opts: opts, entry: entry}
+	ex := &Explorer{prog: pr, opts: opts, entry: entry, rng: uint64(opts.Seed)*2654435761 + 12345}
 	ex.cond = sync.NewCond(&ex.mu)
 	ex.res = &Result{Harness: entry.String(), Reached: map[string]int{}, Funcs: map[string]bool{}}
 	ex.front = [][]int{{}}
 	t0 := time.Now()
+	// memory watchdog: a run that outgrows its budget is stopped and reported, never killed by the OS
+	done := make(chan struct{})
+	go func() {
+		limit := uint64(opts.bound("mem_mb", 6000)) << 20
+		tick := time.NewTicker(300 * time.Millisecond)
+		defer tick.Stop()
+		for {
+			select {
+			case <-done:
+				return
+			case <-tick.C:
+				var ms runtime.MemStats
+				runtime.ReadMemStats(&ms)
+				if ms.HeapAlloc > limit {
+					ex.mu.Lock()
+					if !ex.stop {
+						ex.res.Inconclusive = append(ex.res.Inconclusive, fmt.Sprintf("memory budget %d MB exceeded: exploration stopped", limit>>20))
+						ex.stop = true
+						ex.abort = true
+						ex.cond.Broadcast()
+					}
+					ex.mu.Unlock()
+				}
+			}
+		}
+	}()
 	var wg sync.WaitGroup
 	for w := 0; w < opts.Workers; w++ {
 		wg.Add(1)
@@ -446,6 +476,7 @@ func (pr *Program) Explore(entry *ssa.Function, opts Options) *Result {
 		}(w)
 	}
 	wg.Wait()
+	close(done)
 	ex.res.Wall = time.Since(t0)
 	sort.Strings(ex.res.Inconclusive)
 	return ex.res
@@ -490,7 +521,15 @@ func (ex *Explorer) worker(id int) {
 			ex.mu.Unlock()
 			break
 		}
-		script := ex.front[len(ex.front)-1]
+		pick := len(ex.front) - 1
+		if ex.opts.Seed != 0 && len(ex.front) > 4 && ex.started%4 == 3 {
+			// every fourth path starts from a pseudo-randomly chosen pending prefix:
+			// a budgeted run then samples the path tree more evenly than pure depth-first order
+			ex.rng = ex.rng*6364136223846793005 + 1442695040888963407
+			pick = int((ex.rng >> 33) % uint64(len(ex.front)))
+		}
+		script := ex.front[pick]
+		ex.front[pick] = ex.front[len(ex.front)-1]
 		ex.front = ex.front[:len(ex.front)-1]
 		ex.active++
 		ex.started++
